@@ -33,14 +33,26 @@ exited 1 with a `VIOLATION property=<id> replay=<file>` line whose replay file h
 concrete failing input for the real code. The full table with the complete descriptions
 and what each change needs to manifest is `seeded/TABLE.md`.
 
-Two rounds were run. Round 1 (ids ending in a / b / c): two changes per property; round 2
-(ids ending in r, plus C04a / C04b): one more per property with a different angle, after
-the round-1 misses had been repaired. In every case where a change was missed, the repair
-was to the *class* of input the harness never produced (never to the particular change):
-the property's builder was told which class of input distinguishes the changed code and
-nothing about the patch itself. After strengthening, every one of the {n} changes is
-reported for every seed tried; on the unchanged tree all 20 checks exit 0 for the same
-seeds.
+Six rounds were run. Round 1 (ids ending in a / b / c): two changes per property; round 2
+(ids ending in r, plus C04a / C04b), rounds 3 and 4 (s, t), round 5 (u) and round 6 (v): one
+more per property each, with a different angle every time (round 5: the less-travelled
+methods; round 6: multi-step histories, second calls on the same object, cooperating
+sites), always after the misses of the round before had been repaired. In every case where
+a change was missed, the repair was to the *class* of input the harness never produced
+(never to the particular change). Rounds 5 and 6 (40 changes): 35 caught as built with a
+concrete failing input for every seed, 5 after strengthening (C02u, C14u, C15u, C04v,
+C14v; the classes were: mode pairings that only repeated extents make valid, data of
+magnitude 1e-9, a Kruskal tensor that is already symmetric, a right-hand-side object that
+is used twice in one history, holders whose modes share one array object). The complete
+matrix was re-run on the current tree after round 5: it showed one change recorded as
+caught that was in fact caught only by luck of the sample (C01s; the Kruskal split point
+is now enumerated) and one change that no longer applies (C13s: the repair 6b9ef45
+re-evaluates the objective at the returned vector, which subsumes the update the change
+dropped). After strengthening, every applicable change is reported for every seed tried;
+on the unchanged tree all 20 checks exit 0 for the same seeds. The matrix measures the
+QUICK tier with the drift detector switched off (`VERIF_NO_DRIFT=1`); in normal use a
+change to any file a property is anchored in widens that property's run to the thorough
+size (4.4), so the numbers below are a lower bound.
 
 | id | property | file | change | caught | quick, seeds 0 1 2 |
 |---|---|---|---|---|---|""")
@@ -69,6 +81,35 @@ body.append("""
   C06r also by C02, C08r also by C05); the table
   lists the property the sub-agent was given.
 """)
+# 12.2 harmless refactorings
+H = []
+for f in sorted(glob.glob('/verif/harmless/*/meta.json')):
+    k = os.path.basename(os.path.dirname(f)); m = json.load(open(f))
+    cr = m.get('check_result', {})
+    summ = m.get('summary', '').replace('|', '/').replace('\n', ' ')
+    short = summ if len(summ) <= 170 else summ[:167].rsplit(' ', 1)[0] + ' …'
+    H.append(f"| {k} | {m.get('keeps_property')} | {m.get('kind', '?')} | {', '.join(os.path.basename(x) for x in m.get('files', []))} | {short} | "
+             f"{'exit 0' if cr.get('rc') == 0 else 'ALARM'}{' + ANCHOR-LOST advisory' if cr.get('anchor_lost_advisory') else ''} |")
+body.append(f"""
+### 12.2 Harmless refactorings: the checks stay quiet
+
+The counterpart experiment (`tools/harmless_prompt.py`, `tools/harmless_matrix.py`, kept under `/verif/harmless/<id>/`
+with `patch.diff`, `probe.py`, `meta.json`): fresh sub-agents, again given only a property's text and a scratch
+worktree, produced {len(H)} realistic refactorings of 15-80 changed lines each after which the package behaves the same
+for every input - kind A structural (helper extraction, renamed locals, merged branches, `assert` <-> `raise`,
+comprehensions; results bit-identical) and kind B numerically equivalent (another association or library route; results
+equal up to rounding). Each comes with a probe script whose recorded outputs (values as float hex, shapes, dtypes,
+exception classes, mutation and sharing) are identical on both trees (kind B: within 1e-12). A check that prints a
+VIOLATION line on such a tree raises an alarm on code where the property holds. Outcome on the current tree (quick tier,
+VERIF_SEED 0 and 1): every check exits 0. Four structural refactorings (C09h, C10h, C11h, C18h) move anchored statements
+into helpers or rename the variables the translators look for; before session 5 they ended in `VIOLATION …
+no-failing-input-found` and, through the shared driver, so did all the other checks; now the pinned definitions are used,
+the correspondence runs at the thorough size and agrees, and the check prints an `ANCHOR-LOST (advisory)` line and exits 0
+(4.2). They are kept as regression cases for the translators.
+
+| id | property | kind | files | refactoring | check |
+|---|---|---|---|---|---|""")
+body += H
 text = open('/verif/DESIGN.md').read()
 new = "\n".join(body)
 if '## 12. Seeded changes' in text:
